@@ -559,3 +559,70 @@ def unit_gamma_trunc_shape(prop="C06"):
                             name="gamma_trunc_shape", fname="ComplexGammatoneFilterBank.get_truncated_response", to_case=tc, replay_module="rtc.c06")
     unit.__name__ = "gamma_trunc_shape"
     return unit
+
+
+# ------------------------------------------------------------------------------------------
+# ComplexGammatoneFilterBank.get_frequency_response: the same LENGTH clause (and the shape safety of the vectorised accumulation: the
+# bin grid `omega` has exactly dft_size entries, `_H` returns one value per grid point, `res += ...` adds arrays of equal length).
+# `_H`'s values are numeric (havoc); `np.arange(n)` is the index ramp of length n; array (+, *, /) scalar keeps the length.
+# ------------------------------------------------------------------------------------------
+def contract_gamma_resp_length(half):
+    c = contract_resp_length("ComplexGammatoneFilterBank", half, 1)
+
+    def h_arange(ex, st, args, kwargs, node, ev):
+        if len(args) != 1:
+            raise Outside("np.arange with more than a stop")
+        n = args[0]
+        ev.wd(Z(n) >= 0, "arange_nonneg", node)
+        k = z3.Int("k!%d" % next(symex._fresh))
+        return st.new_root(n, z3.Lambda([k], z3.ToReal(k)), "float64", "fresh", "arange")
+
+    def h_arr_binop(ex, st, op, a, b, node, ev):
+        from pyvc.api import Arr
+        if isinstance(a, Arr) and isinstance(b, Arr):
+            ev.wd(Z(a.n) == Z(b.n), "same_length", node)
+        f = {ast.Mult: lambda x, y: x * y, ast.Sub: lambda x, y: x - y, ast.Add: lambda x, y: x + y, ast.Div: lambda x, y: x / y}.get(type(op))
+        if f is None:
+            raise Outside("array operator")
+        if isinstance(op, ast.Div) and not isinstance(b, Arr):
+            ev.wd(to_real(b) != 0, "div0", node)
+        return api.elementwise(st, f, a, b, name="tmp")
+
+    def h_H(ex, st, o, args, kwargs, node, ev):
+        from pyvc.api import Arr
+        if len(args) != 2 or not isinstance(args[0], Arr):
+            raise Outside("_H on something other than (grid, filter index)")
+        ex.oblige(st, z3.And(Z(args[1]) >= 0, Z(args[1]) < Z(st.fields[("self", "_xis")].n)), f"filter_index_in_range.L{node.lineno - ex.fx.lineno}", "pre", node.lineno)
+        return st.new_root(args[0].n, None, "complex128", "fresh", "H_values")   # one (numeric, unspecified) value per grid point
+
+    c.handlers.update({"np.arange": h_arange, "arr_binop": h_arr_binop, "ComplexGammatoneFilterBank._H": h_H, "self._H": h_H})
+    c.lazy_products = False
+    return c
+
+
+def unit_gamma_resp_length(prop="C06"):
+    def unit(tier, known):
+        from contracts.registry import run_contract
+        from contracts import filters_tri as T
+
+        def tc(ob):
+            out = []
+            for c in T.to_case_frequency(ob):
+                b = dict(c["bank"], bank="gamma", order=4, max_centered=False)
+                b.pop("analytic", None)
+                out.append(dict(c, bank=b))
+            return out
+        u = None
+        for half in (False, True):
+            r = run_contract(prop, ("filters", "ComplexGammatoneFilterBank.get_frequency_response"), contract_gamma_resp_length(half),
+                             [("half" if half else "full", _setup_resp("ComplexGammatoneFilterBank", half))], name="gamma_resp_length",
+                             fname="ComplexGammatoneFilterBank.get_frequency_response", to_case=tc, replay_module="rtc.c06")
+            if u is None:
+                u = r
+            else:
+                u.obligations += r.obligations
+                u.outside += r.outside
+                u.assumptions |= r.assumptions
+        return u
+    unit.__name__ = "gamma_resp_length"
+    return unit
